@@ -1,4 +1,5 @@
 import Driver.OpsCore
+import Driver.OpsSearch
 import Driver.OpsEval
 import Driver.OpsRoads
 import Driver.OpsAlloc
@@ -27,6 +28,7 @@ def handlers : List Handler := [
   handleFPA,
   handleMCTS,
   handlePTN,
+  handleSearch,
 ]
 
 def step (st : St) (line : String) : St × String :=
